@@ -173,7 +173,11 @@ void run(const std::vector<uint8_t>& in, int op)
     bool ok = false;
     g_reset();
     g_budget = g_factor * in.size() + 4096;
-    try { ok = x.template decode<E>(buf, in.size()); }
+    try
+    {
+        if (op & 16) ok = x.template decode<E>(in);     // the std::vector entry point
+        else ok = x.template decode<E>(buf, in.size());
+    }
     catch (std::bad_alloc&) { g_budget = ~size_t(0); printf("X bad_alloc %zu\n", g_refused_size); }
     g_budget = ~size_t(0);
     printf("A %zu %zu %zu\n", g_max, g_total, g_refused);
